@@ -493,6 +493,11 @@ impl Gen {
                 }
             }
         }
+        if !is_last && !tail && self.chance(1, 9) && !self.low() {
+            if let Some(r) = self.closure_probe(env) {
+                return r;
+            }
+        }
         if !is_last && d > 0 && roll < 2 && self.budget > 3 {
             // f = #T { … }
             self.fresh_start = false;
@@ -1529,6 +1534,183 @@ impl Gen {
     }
 
     /// `#T { … }`: returns the term, its type, and whether it is a guarded count-down function.
+    /// a literal of a simple data type
+    fn lit_of_type(&mut self, ty: &Ty) -> Option<Term> {
+        match ty {
+            Ty::Int => Some(lit_int(self.rng.range(-3, 12))),
+            Ty::Bin => {
+                let n = self.rng.usize(3);
+                Some(Term::Lit(Lit::Bin(self.rng.bytes(n))))
+            }
+            Ty::Tup(n, fs) => {
+                let mut fields = vec![];
+                for (l, t) in fs {
+                    fields.push(Field::Val(l.clone(), Chain::new(vec![self.lit_of_type(t)?])));
+                }
+                Some(Term::Tuple(n.clone().map(TupName::Named).unwrap_or(TupName::Anon), fields))
+            }
+            _ => None,
+        }
+    }
+
+    /// closure probes: `f = #{ … }` (called in the next step) whose body
+    ///  * uses an outer variable ONLY through a pin, in every pattern position (in-chain match, chain
+    ///    binding pattern, inside a tuple pattern of either) — the free-variable collector has to see it;
+    ///  * reads a path `p.x` of an outer tuple AFTER rebinding `p` locally / in front of a nested
+    ///    closure / by a block binder — the pre-evaluated captured path must not win over the new `p`.
+    fn closure_probe(&mut self, env: &mut Env) -> Option<(Chain, Ty, Vec<String>, bool)> {
+        let outer: Vec<Var> = env.readable().into_iter().filter(|v| !v.ty.has_fn()).collect();
+        if outer.is_empty() {
+            return None;
+        }
+        let ints: Vec<Var> = outer.iter().filter(|v| v.ty == Ty::Int).cloned().collect();
+        let tups: Vec<(Var, Acc, Ty)> = outer
+            .iter()
+            .filter_map(|v| {
+                if let Ty::Tup(_, fs) = &v.ty {
+                    let cands: Vec<(Acc, Ty)> = fs
+                        .iter()
+                        .enumerate()
+                        .filter(|(_, (_, t))| matches!(t, Ty::Int | Ty::Bin))
+                        .map(|(i, (l, t))| (l.clone().map(Acc::Label).unwrap_or(Acc::Index(i)), t.clone()))
+                        .collect();
+                    if cands.is_empty() { None } else { Some((v.clone(), cands[0].0.clone(), cands[0].1.clone())) }
+                } else {
+                    None
+                }
+            })
+            .collect();
+        let pin_family = !ints.is_empty() && (tups.is_empty() || self.chance(1, 2));
+        let unit = || Term::Tuple(TupName::Anon, vec![]);
+        let (body, rty): (Expr, Ty) = if pin_family {
+            let y = ints[self.rng.usize(ints.len())].name.clone();
+            let v = lit_int(self.rng.range(-1, 4));
+            let w = lit_int(self.rng.range(5, 9));
+            let avoid: Vec<String> = vec![y.clone()];
+            let z = self.var_name(env, &avoid);
+            if z == y || env.lookup(&z).is_some() {
+                return None;
+            }
+            let form = self.rng.below(4);
+            let (cond, binds_z): (Chain, bool) = match form {
+                0 => (Chain::new(vec![v, Term::Match(Pat::Pin(y.clone()))]), false),
+                1 => (Chain { pat: Some(Pat::Pin(y.clone())), terms: vec![v] }, false),
+                2 => (
+                    Chain {
+                        pat: Some(Pat::Tup(None, vec![(None, Pat::Pin(y.clone())), (None, Pat::Bind(z.clone()))])),
+                        terms: vec![pair(vec![v], vec![w.clone()])],
+                    },
+                    true,
+                ),
+                _ => (
+                    Chain::new(vec![
+                        pair(vec![v], vec![w.clone()]),
+                        Term::Match(Pat::Tup(None, vec![(None, Pat::Pin(y.clone())), (None, Pat::Bind(z.clone()))])),
+                    ]),
+                    true,
+                ),
+            };
+            self.feat(match form {
+                0 => "closure-probe-pin-inchain",
+                1 => "closure-probe-pin-binding",
+                2 => "closure-probe-pin-binding-tuple",
+                _ => "closure-probe-pin-inchain-tuple",
+            });
+            let seen = if binds_z { Term::Access(Src::Var(z.clone()), vec![]) } else { lit_int(self.rng.range(10, 20)) };
+            match self.rng.below(3) {
+                0 => (Expr { branches: vec![Branch { cond: vec![cond], cons: None }] }, Ty::ok().with_nil()),
+                1 => (Expr { branches: vec![Branch { cond: vec![cond, Chain::new(vec![seen])], cons: None }] }, Ty::Int.with_nil()),
+                _ => (
+                    Expr {
+                        branches: vec![
+                            Branch { cond: vec![cond], cons: Some(vec![Chain::new(vec![seen])]) },
+                            Branch { cond: vec![Chain::new(vec![lit_int(self.rng.range(20, 30))])], cons: None },
+                        ],
+                    },
+                    Ty::Int,
+                ),
+            }
+        } else {
+            if tups.is_empty() {
+                return None;
+            }
+            let (p, acc, fty) = tups[self.rng.usize(tups.len())].clone();
+            let newv = self.lit_of_type(&p.ty)?;
+            let pn = p.name.clone();
+            let read = || Term::Access(Src::Var(pn.clone()), vec![acc.clone()]);
+            let rebind = Chain { pat: Some(Pat::Bind(pn.clone())), terms: vec![newv.clone()] };
+            let form = self.rng.below(4);
+            self.feat(match form {
+                0 => "closure-probe-path-rebound",
+                1 => "closure-probe-path-nested-closure",
+                2 => "closure-probe-path-block-binder",
+                _ => "closure-probe-path-block-then-outer",
+            });
+            match form {
+                0 => (Expr { branches: vec![Branch { cond: vec![rebind, Chain::new(vec![read()])], cons: None }] }, fty.clone()),
+                1 => {
+                    let g = self.var_name(env, &[pn.clone()]);
+                    if g == pn || env.lookup(&g).is_some() {
+                        return None;
+                    }
+                    let inner = Term::Fn {
+                        param: Ty::nil(),
+                        body: Some(Expr { branches: vec![Branch { cond: vec![Chain::new(vec![read()])], cons: None }] }),
+                    };
+                    (
+                        Expr {
+                            branches: vec![Branch {
+                                cond: vec![
+                                    rebind,
+                                    Chain { pat: Some(Pat::Bind(g.clone())), terms: vec![inner] },
+                                    Chain::new(vec![unit(), Term::Access(Src::Var(g), vec![])]),
+                                ],
+                                cons: None,
+                            }],
+                        },
+                        fty.clone(),
+                    )
+                }
+                2 => (
+                    Expr {
+                        branches: vec![Branch {
+                            cond: vec![Chain::new(vec![
+                                newv,
+                                Term::Block(Expr {
+                                    branches: vec![Branch { cond: vec![Chain::new(vec![Term::Match(Pat::Bind(pn.clone()))])], cons: Some(vec![Chain::new(vec![read()])]) }],
+                                }),
+                            ])],
+                            cons: None,
+                        }],
+                    },
+                    fty.clone(),
+                ),
+                _ => (
+                    Expr {
+                        branches: vec![Branch {
+                            cond: vec![Chain::new(vec![pair(
+                                vec![Term::Block(Expr { branches: vec![Branch { cond: vec![rebind, Chain::new(vec![read()])], cons: None }] })],
+                                vec![read()],
+                            )])],
+                            cons: None,
+                        }],
+                    },
+                    Ty::Tup(None, vec![(None, fty.clone()), (None, fty.clone())]),
+                ),
+            }
+        };
+        let name = self.var_name(env, &[]);
+        if env.lookup(&name).is_some() {
+            return None;
+        }
+        let fty = Ty::Fn(Box::new(Ty::nil()), Box::new(rty));
+        env.bind(&name, fty, St::Definite);
+        self.pending_call = Some(name.clone());
+        self.feat("closure-probe");
+        self.fresh_start = false;
+        Some((Chain { pat: Some(Pat::Bind(name)), terms: vec![Term::Fn { param: Ty::nil(), body: Some(body) }] }, Ty::ok(), vec![], false))
+    }
+
     fn gen_fn(&mut self, env: &Env, d: u32) -> (Term, Ty, bool) {
         let recursive = self.chance(3, 10) && d > 0 && !self.low();
         let mut cap = Env { vars: env.vars.clone() };
